@@ -35,7 +35,19 @@ def _stat_of(path):
     return {"ino": st.st_ino, "mtime_ns": st.st_mtime_ns, "size": st.st_size, "mode": st.st_mode}
 
 
-async def _one_kind(how, between_builds):
+def _exotic(path, how):
+    """Replacements after which the path is not a readable regular file."""
+    if how == "to_dir":
+        os.remove(path)
+        os.mkdir(path)
+    elif how == "to_dangling":
+        os.remove(path)
+        os.symlink("nowhere.txt", path)
+    else:
+        raise ValueError(how)
+
+
+async def _one_kind(how, between_builds, keep_going=False):
     import stepup.core.director as di
     import stepup.core.executor as ex
     from stepup.core.constants import GRAPH_DB
@@ -73,6 +85,8 @@ async def _one_kind(how, between_builds):
             Path(target).write_text(f"payload version {variant} " + "x" * variant)
             if how == "rename":
                 os.replace(target, "data.txt")
+        elif how.startswith("to_"):
+            _exotic("data.txt", how)
         else:
             replace_file("data.txt", variant, how)
         log["stats"].append({"before": before, "after": _stat_of("data.txt")})
@@ -83,6 +97,11 @@ async def _one_kind(how, between_builds):
         if command == "./plan.py":
             await h.declare_static(j, [], ["data.txt"], [])
             await h.define_step(j, "c", ["data.txt"], [], ["result.txt"], [], ".", D, {})
+            if keep_going:
+                # an independent step that is ready all the time: with one worker it is dispatched after c
+                await h.define_step(j, "z", [], [], ["z.txt"], [], ".", D, {})
+        elif command == "z":
+            Path("z.txt").write_text("z")
         elif command == "c":
             first = Path("data.txt").read_bytes()
             if build[0] == 1 and not between_builds:
@@ -118,7 +137,8 @@ async def _one_kind(how, between_builds):
                 try:
                     with DBSession.open(GRAPH_DB) as db:
                         res = await asyncio.wait_for(
-                            serve(ServeConfig(njob=2, use_duration=False), director_socket_path=Path(".stepup/sock"),
+                            serve(ServeConfig(njob=1 if keep_going else 2, use_duration=False, keep_going=keep_going),
+                                  director_socket_path=Path(".stepup/sock"),
                                   reporter=ReporterClient(Rec()), db=db, handle_signals=False), 60)
                     out[f"rc{b}"] = res.returncode.value
                 except BaseException as e:  # noqa: BLE001
@@ -192,4 +212,39 @@ def replace_system(ctx):
                     ctx.notes.append(f"c03_repl: data.txt replaced by the same bytes ({how}) between two builds, c was "
                                      f"executed again (allowed by the property): events {ev2}")
     ctx.stats["replace_system"] = summary
+    return fails
+
+
+SIG_UNREADABLE = "oracle:replace-system:to_dir:during-command:dispatch-not-stopped"
+
+
+def unreadable_input_system(ctx):
+    """Finding C03-unreadable-input: with --keep-going and one worker, data.txt is replaced by a
+    directory while the command of c runs; an independent step z is ready all the time.  The property
+    wants c FAILED and no further dispatch.  Control: a dangling symbolic link (stat fails: "vanished")
+    drains.  Returns a list of (signature, detail, witness)."""
+    fails = []
+    out = {}
+    for how in ("to_dangling", "to_dir"):
+        try:
+            res = asyncio.run(asyncio.wait_for(_one_kind(how, False, keep_going=True), 150))
+        except asyncio.TimeoutError:
+            ctx.notes.append(f"c03_repl: keep-going/{how} timed out")
+            continue
+        ctx.case(("replace-system-keep-going", how), nontrivial=True)
+        ev = res["events"]
+        failed = ["FAIL", "c"] in ev and res.get("c_state1") == S_FAILED
+        later = ev[ev.index(["FAIL", "c"]) + 1:] if ["FAIL", "c"] in ev else ev
+        started_after = [e for e in later if e[0] == "START"]
+        out[how] = {"failed": failed, "started_after_fail": started_after}
+        if not failed:
+            fails.append((f"oracle:replace-system:{how}:during-command:not-noticed",
+                          f"real serve() --keep-going: data.txt was replaced ({how}) during the command of c but c did not "
+                          f"FAIL: state {res.get('c_state1')}, events {ev}", {"system": res}))
+        elif started_after:
+            fails.append((f"oracle:replace-system:{how}:during-command:dispatch-not-stopped",
+                          f"real serve() --keep-going, one worker: data.txt was replaced ({how}) while the command of c ran; "
+                          f"c FAILED, but dispatch was not stopped: {started_after} after the FAIL "
+                          f"(events {ev}, build return code {res.get('rc1')})", {"system": res}))
+    ctx.stats["replace_system_keep_going"] = out
     return fails
